@@ -71,9 +71,12 @@ def gen_history(rng, max_n=12, max_ops=40):
             ops.append(("ask", k, commit))
             if commit:
                 outstanding.append("?")  # resolved at run time
-        elif r < 0.85 and n > 0:
+        elif r < 0.78 and n > 0:
             mode = rng.random()
             ops.append(("tell", mode, rng.randrange(1 << 30), rng.randrange(-1000, 1000)))
+        elif r < 0.85 and n > 0:
+            # tell_many: several results at once (lists or one-shot iterables - `load_dataframe` passes a zip)
+            ops.append(("tell_many", rng.choice([1, 2, 3, 5]), rng.randrange(1 << 30), rng.choice(["list", "zip", "generator"])))
         elif r < 0.93:
             ops.append(("remove_unfinished",))
         elif r < 0.97 and n > 0:
@@ -170,6 +173,32 @@ def execute(hist, check=None):
             if i in outstanding:
                 outstanding.remove(i)
             lines.append(f"seq tell {i} {v}")
+            outs.append("ok " + obs_impl(l, n))
+        elif op[0] == "tell_many":
+            _, k, pick, how = op
+            if n == 0:
+                continue
+            prng = _r.Random(pick)
+            idx = []
+            for _j in range(k):
+                if outstanding and prng.random() < 0.7:
+                    idx.append(outstanding[prng.randrange(len(outstanding))])
+                else:
+                    idx.append(prng.randrange(n))
+            idx = list(dict.fromkeys(idx))
+            vals = [prng.randrange(-1000, 1000) for _ in idx]
+            pts = [(i, seq[i]) for i in idx]
+            if how == "list":
+                l.tell_many(pts, vals)
+            elif how == "zip":
+                l.tell_many(zip(idx, [seq[i] for i in idx]), iter(vals))
+            else:
+                l.tell_many((p for p in pts), (v for v in vals))
+            for i, v in zip(idx, vals):
+                told[i] = v
+                if i in outstanding:
+                    outstanding.remove(i)
+            lines.append(f"seq tell_many {','.join(map(str, idx))} {','.join(map(str, vals))}")
             outs.append("ok " + obs_impl(l, n))
         elif op[0] == "remove_unfinished":
             l.remove_unfinished()
